@@ -161,6 +161,7 @@ func hash64(parts ...string) uint64 {
 // ---------------------------------------------------------------------------
 
 type FCfg struct {
+	BigInts bool // some integers are beyond 2^53
 	MaxLen   int  // maximal generated collection size
 	AllowNil bool // outputs may be null
 	PathStrings bool // string and untyped-map outputs may hold the path of a file the stage wrote
@@ -247,6 +248,17 @@ func (g *genCtx) value(t Ty, path string) interface{} {
 	h := g.h(path)
 	switch t.Base {
 	case "int":
+		if g.cfg.BigInts && h%8 == 3 {
+			// integers which no float64 holds exactly
+			v := int64(9007199254740993) + int64(h%997)*2
+			if h%16 == 11 {
+				v = -v
+			}
+			if h%32 == 3 {
+				v = 4611686018427387905 + int64(h%97)
+			}
+			return v
+		}
 		return int64(h % 1000)
 	case "float":
 		return float64(h%1000) + 0.5
@@ -309,7 +321,7 @@ func FSplit(p *Prog, cfg *FCfg, st *StageDef, args interface{}, files FileMaker)
 	n := int(hash64(seed, "n") % uint64(cfg.MaxChunks+1))
 	chunks := make([]map[string]interface{}, n)
 	for i := 0; i < n; i++ {
-		g := &genCtx{p: p, cfg: &FCfg{MaxLen: cfg.MaxLen, Salt: cfg.Salt}, seed: seed + "|" + strconv.Itoa(i),
+		g := &genCtx{p: p, cfg: &FCfg{MaxLen: cfg.MaxLen, Salt: cfg.Salt, BigInts: cfg.BigInts}, seed: seed + "|" + strconv.Itoa(i),
 			files: func(name, content string) string { return files(fmt.Sprintf("chunk%d_%s", i, name), content) }}
 		c := make(map[string]interface{}, len(st.ChunkIns))
 		for _, f := range st.ChunkIns {
